@@ -293,8 +293,16 @@ def bad_date(v, rnd=None):
     return None
 
 
-def bad_time(v):
+def bad_time(v, mx=None, k=0):
+    """an impossible time of an admissible length: hour 25, minute 61, or (six digits and more) seconds 60-99"""
     if re.fullmatch(r'\d{4}(\d{2}(\d{1,2})?)?', v):
+        k = k % 3
+        if k == 1:
+            return v[:2] + '61' + v[4:]
+        if k == 2 and len(v) >= 6:
+            return v[:4] + '75' + v[6:]
+        if k == 2 and mx is not None and mx >= 6:
+            return v[:4] + '60'
         return '25' + v[2:]
     return None
 
@@ -382,7 +390,7 @@ def element_candidates(doc, si, rnd):
                 if nv is not None:
                     yield 'bad-date', pos, sub, nv, '8'
             if d.ty == 'TM' or 'TM' in tl:
-                nv = bad_time(v)
+                nv = bad_time(v, d.mx, rnd.randrange(3))
                 if nv is not None:
                     yield 'bad-time', pos, sub, nv, '9'
             if d.usage == 'R':
